@@ -33,11 +33,12 @@ def make_schema(assign, reason_shift=0):
         else:
             deps.append((REASONS[r % len(REASONS)],))
             r += 1
-    tf = [gql.FieldDef("f%d" % i, ["String", "Int!", "[String!]", "Boolean"][i], dep=deps[i]) for i in range(4)]
-    gf = [gql.FieldDef("g%d" % i, ["String", "Int!", "[String!]", "Boolean"][i], dep=deps[i]) for i in range(4)]
+    tf = [gql.FieldDef("f%d" % i, ["String", "Int!", "Sub", "Boolean"][i], dep=deps[i]) for i in range(4)]
+    gf = [gql.FieldDef("g%d" % i, ["String", "Int!", "Sub", "Boolean"][i], dep=deps[i]) for i in range(4)]
     # the implementor repeats the interface's fields, not deprecated there
-    tg = [gql.FieldDef("g%d" % i, ["String", "Int!", "[String!]", "Boolean"][i]) for i in range(4)]
+    tg = [gql.FieldDef("g%d" % i, ["String", "Int!", "Sub", "Boolean"][i]) for i in range(4)]
     schema = gql.Schema([
+        gql.obj("Sub", [("x", "Int")]),   # field 2 is object-typed: a deprecated composite field has a sub-selection
         gql.iface("IF", gf),
         gql.obj("T", tf + tg + [gql.FieldDef("keep", "Int")], ["IF"]),
         gql.obj("Q", [("t", "T"), ("i", "IF")]),
@@ -45,19 +46,24 @@ def make_schema(assign, reason_shift=0):
     return schema, deps
 
 
+def F(name, alias=None):
+    """Selection of field `name` (fields f2 / g2 are object-typed)."""
+    return Field(name, [Field("x")] if name.endswith("2") else None, alias=alias)
+
+
 def make_doc(style):
     fs = ["f%d" % i for i in range(4)]
     if style == "direct":
-        return Doc([Op("query", "Op", [Field("t", [Field(f) for f in fs] + [Field("keep")])])]), "OpT", {f: f for f in fs}, ["t"]
+        return Doc([Op("query", "Op", [Field("t", [F(f) for f in fs] + [Field("keep")])])]), "OpT", {f: f for f in fs}, ["t"]
     if style == "aliased":
-        return Doc([Op("query", "Op", [Field("t", [Field(f, alias="a" + f) for f in fs] + [Field("keep")])])]), "OpT", {f: "a" + f for f in fs}, ["t"]
+        return Doc([Op("query", "Op", [Field("t", [F(f, alias="a" + f) for f in fs] + [Field("keep")])])]), "OpT", {f: "a" + f for f in fs}, ["t"]
     if style == "fragment":
-        return Doc([FragDef("Frag", "T", [Field(f) for f in fs] + [Field("keep")]),
+        return Doc([FragDef("Frag", "T", [F(f) for f in fs] + [Field("keep")]),
                     Op("query", "Op", [Field("t", [Spread("Frag")])])]), "Frag", {f: f for f in fs}, ["t"]
     if style == "variant":
-        return Doc([Op("query", "Op", [Field("i", [TN(), Inline("T", [Field(f) for f in fs] + [Field("keep")])])])]), "OpIOnT", {f: f for f in fs}, ["i"]
+        return Doc([Op("query", "Op", [Field("i", [TN(), Inline("T", [F(f) for f in fs] + [Field("keep")])])])]), "OpIOnT", {f: f for f in fs}, ["i"]
     gs = ["g%d" % i for i in range(4)]
-    return Doc([Op("query", "Op", [Field("i", [TN()] + [Field(g) for g in gs])])]), "OpI", {("f%d" % i): gs[i] for i in range(4)}, ["i"]
+    return Doc([Op("query", "Op", [Field("i", [TN()] + [F(g) for g in gs])])]), "OpI", {("f%d" % i): gs[i] for i in range(4)}, ["i"]
 
 
 def find_struct(items, name):
@@ -102,7 +108,7 @@ def dep_attr(f):
 
 
 def sample_value(i):
-    return ["s", 3, ["x"], True][i]
+    return ["s", 3, {"x": 1}, True][i]
 
 
 def run(tier):
